@@ -4,6 +4,6 @@ set -u
 P="$(readlink -f "$1")"; shift
 git -C /repo diff --quiet || { echo "/repo has uncommitted changes" >&2; exit 9; }
 git -C /repo apply "$P" || { echo "patch does not apply" >&2; exit 9; }
-"$@"; rc=$?
+VERIF_EVIDENCE_DIR="${VERIF_EVIDENCE_DIR:-/tmp/verif-mut-evidence}" "$@"; rc=$?
 git -C /repo checkout -- . 
 exit $rc
